@@ -59,6 +59,9 @@ def seed_table():
             else:
                 hits.append((prop, rc, '', 'exit ' + rc + (' (inconclusive)' if rc == '2' else ' (not reported)'), 0))
         by = '; '.join(f'{p} [{e}]' for p, rc, e, r, n in hits if n) or 'none'
+        if meta.get('obsolete'):
+            rows.append(f'| {sid} | {meta["property"]} | (obsolete since fix 126868c: the change no longer breaks the property; reported before that fix by its own check) | – |')
+            continue
         roles = '; '.join(f'{p}: `{r}`' + (f' (+{n - 1} more)' if n > 1 else '') for p, rc, e, r, n in hits)
         rows.append(f'| {sid} | {meta["property"]} | {by} | {roles} |')
     return '\n'.join(rows) + '\n'
